@@ -811,7 +811,7 @@ func genMI(t *rapid.T, i int) Art {
 var (
 	uintEdges  = []uint64{0, 1, 23, 24, 255, 256, 65535, 65536, 1<<32 - 1, 1 << 32, 1<<63 - 1, 1 << 63, 1<<64 - 1}
 	intEdges   = []int64{0, 23, 24, -1, -24, -25, -256, -257, -65536, -65537, -1 << 32, -1<<32 - 1, -1 << 63, 1<<63 - 1}
-	lenEdges   = []int{0, 1, 23, 24, 255, 256, 257, 1000}
+	lenEdges   = []int{0, 1, 23, 24, 255, 256, 257, 1000, 64, 65, 128, 129, 512, 513}
 	textValues = []string{"", "a", "hello", "é", "日本語", strings.Repeat("t", 23), strings.Repeat("t", 24), strings.Repeat("x", 256), "\U0001F4DC⛓"}
 )
 
